@@ -3,8 +3,8 @@
 (* (harness/pargate.go; hooks at every channel operation of parallel.go) against ParAgg.tla.        *)
 (*                                                                                                   *)
 (* A recorded event is a state predicate on the model ("goroutine p has just received item i",      *)
-(* "goroutine p is about to send / close ..."), because the hook runs BEFORE a send / close and      *)
-(* AFTER a receive.  The trace specification may take any number of (unrecorded) model steps between *)
+(* "goroutine p is about to send / receive / close ..."), because the hook runs BEFORE every channel *)
+(* operation and additionally AFTER a receive.  The trace specification may take any number of (unrecorded) model steps between *)
 (* two recorded events; an event is consumed when its predicate holds.  A trace is accepted when TLC *)
 (* finds a path that consumes every event, i.e. when the invariant NotFinished is VIOLATED; if the   *)
 (* whole (trace-constrained) state space is exhausted without consuming all events, the recorded     *)
@@ -23,9 +23,11 @@ Holds(e) ==
   CASE e.p = "feeder" /\ e.site = "send" -> pc[100] = "f1" /\ fi = e.id
     [] e.p = "feeder" /\ e.site = "exit" -> pc[100] = "Done"
     [] w # 0 /\ e.site = "start" -> w \in Workers
+    [] w # 0 /\ e.site = "wait" -> w \in Workers /\ pc[w] = "w0"          \* before the (next) receive
     [] w # 0 /\ e.site \in {"recv", "send"} -> w \in Workers /\ pc[w] = "w1" /\ item[w] = e.id
     [] w # 0 /\ e.site = "exit" -> w \in Workers /\ pc[w] = "Done"
     \* ParOr collector
+    [] e.p = "main" /\ e.site = "wait" -> pc[102] \in {"m0", "m1"} /\ remaining > 0   \* before a receive of the collector
     [] e.p = "main" /\ e.site = "recv" -> e.id \in DOMAIN got /\ got[e.id] /\ pc[102] \in {"m1", "m2"}
     [] e.p = "main" /\ e.site = "closeChunk" -> pc[102] = "m2"
     [] e.p = "main" /\ e.site = "closeSpec" -> pc[102] = "m3"
@@ -33,6 +35,8 @@ Holds(e) ==
     [] e.p = "main" /\ e.site = "sendInput" -> pc[102] = "h1" /\ mi = e.id /\ e.id < NItems /\ Items[e.id + 1] = "multi"
     [] e.p = "main" /\ e.site = "sendResult" -> pc[102] = "h1" /\ mi = e.id /\ e.id < NItems /\ Items[e.id + 1] = "single"
     [] e.p = "main" /\ e.site = "sendExpected" -> pc[102] = "h2" /\ e.id = NItems
+    [] e.p = "main" /\ e.site = "waitBitmap" -> (pc[102] = "h3" /\ expChan = <<>>) \/ pc[102] = "h4"   \* the expected-count send has completed
+    [] e.p = "appender" /\ e.site = "select" -> pc[101] \in {"a0", "a1"} /\ appended # expected
     [] e.p = "main" /\ e.site = "recvBitmap" -> pc[102] = "h5"
     [] e.p = "main" /\ e.site = "closeInput" -> pc[102] = "h5"
     [] e.p = "main" /\ e.site = "closeResult" -> pc[102] = "h6"
